@@ -781,3 +781,156 @@ func init() {
 	p.Rules = append(p.Rules, func(c *Ctx) { ruleC14g(c, "C14.g") })
 	p.Explanation += " Round-4 clause: a grouped query's asOf is recomputed from 'until' only when the window is shorter than one query period."
 }
+
+// ---- round 5 ----
+
+// skippedInLoop: position of a test inside blk's innermost loop (other than the
+// loop's own exit test) that lets an iteration go on without passing blk; "" if none.
+func skippedInLoop(P *Prog, fn *ssa.Function, blk *ssa.BasicBlock) (string, bool) {
+	l := innermostLoop(fn, blk)
+	if l == nil {
+		return "", false
+	}
+	bad := ""
+	for b := range l.body {
+		i := ifOf(b)
+		if i == nil || b == l.header {
+			continue
+		}
+		for k, br := range []bool{true, false} {
+			other := b.Succs[1-k]
+			if edgeDominates(i, br, blk) && l.body[other] && !reach([]*ssa.BasicBlock{other}, blockSet{l.header: true}, nil)[blk] {
+				bad = P.Pos(i.Cond.Pos())
+			}
+		}
+	}
+	return bad, true
+}
+
+// ruleC14h: the truncating flush truncates every column.
+func ruleC14h(c *Ctx, rule string) {
+	c.describe(rule, "dom: in (*fileStore).doWrite the Sequence.Truncate of a row's columns is applied to every column of every row — inside the loop over the columns no test other than the loop's own exit test decides whether Truncate runs; a sequence's length says nothing about its position in time, so a 'short enough' series of a key that went quiet is entirely expired and must still be cut (and its key dropped)")
+	fn := c.need(rule, "(*z.fileStore).doWrite")
+	if fn == nil {
+		return
+	}
+	n := 0
+	for _, call := range callsTo(fn, "(z/encoding.Sequence).Truncate") {
+		bad, inLoop := skippedInLoop(c.P, fn, call.Block())
+		if !inLoop {
+			continue
+		}
+		n++
+		c.check(rule, "doWrite: every column is truncated at the retention boundary", call.Pos(), bad == "", "Truncate is unconditional in the column loop", "a column can be written without being truncated (test at "+bad+"): a series that lies wholly before now - retention but is short enough to pass that test is rewritten unchanged by every flush, the truncating one included — expired periods stay on disk and the key is never dropped")
+	}
+	c.floor(rule, "Truncate calls in doWrite's column loop", n, 1)
+}
+
+// ruleC15j: the file store installed by a flush describes the file just written.
+func ruleC15j(c *Ctx, rule string) {
+	c.describe(rule, "flow: the fileStore that doProcessFlush installs after a flush carries the row store's current field list (a load of rowStore.fields, the list the file's header was just written with) — not the previous fileStore's: after an ALTER that adds a field the next file holds that column, and a fileStore that still describes the old layout reads its stored values back as empty and the following flush drops them")
+	fn := c.need(rule, "(*z.rowStore).doProcessFlush")
+	if fn == nil {
+		return
+	}
+	n := 0
+	for _, h := range withHelpers(c.P, fn) {
+		for _, st := range fieldStores(h, "z.fileStore.fields") {
+			n++
+			okF := isFieldLoad(resolveVal(c.P, st.Val, fn), "z.rowStore.fields") || isFieldLoad(st.Val, "z.rowStore.fields")
+			c.check(rule, "doProcessFlush: the new fileStore has the fields the file was written with", st.Pos(), okF, "fileStore.fields = rs.fields", "the fileStore installed after a flush does not take the row store's current fields (e.g. it copies the previous fileStore's): once a field was added by ALTER, queries map the new file's columns with the old list, the added field's stored values read back empty and the next flush rewrites the file without them")
+		}
+	}
+	c.floor(rule, "stores to fileStore.fields in doProcessFlush", n, 1)
+}
+
+// ruleC08k: an IN-subquery's value set holds every value its rows carry, NULL included.
+func ruleC08k(c *Ctx, rule string) {
+	c.describe(rule, "dom: the row callback with which planSubQueries collects an IN-subquery's distinct values records the dimension value of every row — the map update keyed by row.Key.Get(dim) is not guarded by any test: a missing dimension (nil) is one of the values, and goexpr's IN matches it against outer rows that lack the dimension too")
+	top := c.need(rule, "z/planner.planSubQueries")
+	if top == nil {
+		return
+	}
+	n := 0
+	for _, fn := range withAnon(top) {
+		if fn == top || len(fn.Params) != 1 || typeStr(fn.Params[0].Type()) != "*z/core.FlatRow" {
+			continue
+		}
+		for _, in := range instrs(fn) {
+			mu, ok := in.(*ssa.MapUpdate)
+			if !ok {
+				continue
+			}
+			n++
+			c.touch(fn)
+			gs := guardsOf(mu.Block())
+			c.check(rule, "planSubQueries: every row's dimension value enters the IN set", mu.Pos(), len(gs) == 0, "the value is recorded unconditionally", "the IN-subquery's row callback records a row's value only under a condition: values it skips (a missing dimension, i.e. NULL) are not in the set, so outer rows that the same predicate over the distinct values keeps are dropped")
+		}
+	}
+	c.floor(rule, "value-set updates in the IN-subquery row callback", n, 1)
+}
+
+func init() {
+	add := func(id, expl string, rs ...func(*Ctx)) {
+		p := registry[id]
+		p.Rules = append(p.Rules, rs...)
+		p.Explanation += " Round-5 clause: " + expl
+	}
+	add("C08", "an IN-subquery's value set takes the dimension value of every row, NULL included.", func(c *Ctx) { ruleC08k(c, "C08.k") })
+	add("C14", "the truncating flush truncates every column unconditionally.", func(c *Ctx) { ruleC14h(c, "C14.h") })
+	add("C15", "the file store installed by a flush carries the row store's current field list.", func(c *Ctx) { ruleC15j(c, "C15.j") })
+}
+
+// ruleC03j: length-prefixed rows are read whole.
+func ruleC03j(c *Ctx, rule string) {
+	c.describe(rule, "E-style discipline: in package zenodb no Read([]byte) (int, error) method is called with its byte count ignored — rows are length-prefixed, so a buffer is filled with io.ReadFull (or the count is used); a bare Read may return fewer bytes without an error (a row that straddles the reader's internal buffer), and the sorted flush would then write a row whose tail is zeros")
+	nFull, nRead := 0, 0
+	for _, fn := range c.P.ModFns {
+		if pkgOf(fn) != "z" {
+			continue
+		}
+		for _, call := range calls(fn) {
+			nm := calleeName(call)
+			if nm == "io.ReadFull" || nm == "io.ReadAtLeast" {
+				nFull++
+				c.touch(fn)
+				continue
+			}
+			cc := call.Common()
+			var sig *types.Signature
+			name := ""
+			if cc.IsInvoke() {
+				sig, _ = cc.Method.Type().(*types.Signature)
+				name = cc.Method.Name()
+			} else if sc := cc.StaticCallee(); sc != nil && sc.Signature.Recv() != nil {
+				sig = sc.Signature
+				name = sc.Name()
+			}
+			if sig == nil || name != "Read" || sig.Params().Len() != 1 || sig.Results().Len() != 2 {
+				continue
+			}
+			if typeStr(sig.Params().At(0).Type()) != "[]byte" || typeStr(sig.Results().At(0).Type()) != "int" {
+				continue
+			}
+			nRead++
+			c.touch(fn)
+			used := false
+			if v, isV := call.(ssa.Value); isV {
+				for _, r := range *v.Referrers() {
+					if ex, ok := r.(*ssa.Extract); ok && ex.Index == 0 && len(*ex.Referrers()) > 0 {
+						used = true
+					}
+				}
+			}
+			c.check(rule, stableName(fn)+": a Read's byte count is used", call.Pos(), used, "the count returned by Read is examined", "Read is called on a buffer that must be filled and its byte count is dropped: a short read (legal without an error) leaves the rest of a length-prefixed row unset — the sorted flush writes rows with a zeroed tail, so results differ between a sorted and an unsorted flush of the same data")
+		}
+	}
+	c.floor(rule, "io.ReadFull/ReadAtLeast calls in package zenodb", nFull, 3)
+	_ = nRead
+}
+
+func init() {
+	p := registry["C03"]
+	p.Rules = append(p.Rules, func(c *Ctx) { ruleC03j(c, "C03.j") })
+	p.Explanation += " Round-5 clause: rows are read whole (no Read with its byte count ignored in package zenodb)."
+}
